@@ -61,7 +61,7 @@ def h_sandbox_url(loc: str) -> bool:
     return _under(unquote(url[len('file://'):]), _base_path())
 
 
-SEGS = ['..', '.', 's', 'sand', 'sanda', '%2e%2e', '', 'base', 'sand%2f..']
+SEGS = ['..', '.', 's', 'sand', 'sanda', '%2e%2e', '', 'base', 'sand%2f..', '%252e%252e', '%2E.']
 
 
 def pre_segs(fn, **kw):
